@@ -3,7 +3,7 @@ import Juniper.Spec.Seq
 /-!
 # Denotation of stream machines under faults (framework for C07/C08)
 
-`SDen m cost s L t`: from state `s`, whatever contexts the consumer passes, the machine `m` yields
+`SDen soft m cost s L t`: from state `s`, whatever contexts the consumer passes, the machine `m` yields
 the items of `L` in order (annotated with `cost` at delivery) and then terminates as `t` says —
 `Term.end_ e`: the end, again and again; `Term.fail err`: the hard failure `err` itself. In between
 it may answer `skip`, or fail *softly* (expired context, transient source failure); a soft failure
@@ -51,26 +51,28 @@ theorem SEnded.any {m : SM σ α} {s : σ} (h : SEnded m s) (c : Bool) : SEnded 
   have := h (c :: cs)
   simpa [afterS] using this
 
-inductive SDen (m : SM σ α) (cost : σ → Nat) : σ → List (α × Nat) → Term → Prop
+inductive SDen (soft : Err → Bool) (m : SM σ α) (cost : σ → Nat) : σ → List (α × Nat) → Term → Prop
   | skip {s s' : σ} {L : List (α × Nat)} {t : Term} :
-      CtxOk m s → m.step s true = (.skip, s') → SDen m cost s' L t → SDen m cost s L t
+      CtxOk m s → m.step s true = (.skip, s') → SDen soft m cost s' L t → SDen soft m cost s L t
   | soft {s s' : σ} {e : Err} {L : List (α × Nat)} {t : Term} :
-      CtxOk m s → m.step s true = (.err e, s') → e.soft = true → SDen m cost s' L t → SDen m cost s L t
+      CtxOk m s → m.step s true = (.err e, s') → soft e = true → SDen soft m cost s' L t → SDen soft m cost s L t
   | item {s s' : σ} {a : α} {L : List (α × Nat)} {t : Term} :
-      CtxOk m s → m.step s true = (.item a, s') → SDen m cost s' L t → SDen m cost s ((a, cost s') :: L) t
+      CtxOk m s → m.step s true = (.item a, s') → SDen soft m cost s' L t → SDen soft m cost s ((a, cost s') :: L) t
   | fail {s s' : σ} {e : Err} :
-      CtxOk m s → m.step s true = (.err e, s') → e.soft = false → SDen m cost s [] (.fail e)
+      CtxOk m s → m.step s true = (.err e, s') → soft e = false → SDen soft m cost s [] (.fail e)
   | done {s s' : σ} :
       CtxOk m s → m.step s true = (.end_, s') → SEnded m s' → (∀ cs, cost (afterS m cs s') = cost s') →
-      SDen m cost s [] (.end_ (cost s'))
+      SDen soft m cost s [] (.end_ (cost s'))
+
+variable {soft : Err → Bool}
 
 theorem SDen.ctxOk {m : SM σ α} {cost : σ → Nat} {s : σ} {L : List (α × Nat)} {t : Term}
-    (h : SDen m cost s L t) : CtxOk m s := by
+    (h : SDen soft m cost s L t) : CtxOk m s := by
   cases h <;> assumption
 
 /-- an expired-context step never changes the denotation -/
 theorem SDen.dead {m : SM σ α} {cost : σ → Nat} {s : σ} {L : List (α × Nat)} {t : Term}
-    (h : SDen m cost s L t) (hd : m.step s false = (.err .ctx, s)) : SDen m cost (m.step s false).2 L t := by
+    (h : SDen soft m cost s L t) (hd : m.step s false = (.err .ctx, s)) : SDen soft m cost (m.step s false).2 L t := by
   rw [hd]; exact h
 
 /-! ## consumer level -/
@@ -85,17 +87,18 @@ def snexts (m : SM σ α) (fuel : Nat) (cs : List Bool) (s : σ) : List (Option 
   snextsF m (cs.map fun c => (c, fuel)) s
 
 /-- erase the failed calls that cost nothing -/
-def hard : List (Option (SStep α)) → List (Option (SStep α))
+def hard (soft : Err → Bool) : List (Option (SStep α)) → List (Option (SStep α))
   | [] => []
-  | some (.err e) :: R => if e.soft then hard R else some (.err e) :: hard R
-  | r :: R => r :: hard R
+  | some (.err e) :: R => if soft e then hard soft R else some (.err e) :: hard soft R
+  | r :: R => r :: hard soft R
 
-theorem hard_cons_item (a : α) (R : List (Option (SStep α))) : hard (some (.item a) :: R) = some (.item a) :: hard R := rfl
-theorem hard_cons_end (R : List (Option (SStep α))) : hard (some .end_ :: R) = some .end_ :: hard R := rfl
-theorem hard_cons_soft (e : Err) (h : e.soft = true) (R : List (Option (SStep α))) :
-    hard (some (.err e) :: R) = hard R := by simp [hard, h]
-theorem hard_cons_hard (e : Err) (h : e.soft = false) (R : List (Option (SStep α))) :
-    hard (some (.err e) :: R) = some (.err e) :: hard R := by simp [hard, h]
+theorem hard_cons_item (a : α) (R : List (Option (SStep α))) :
+    hard soft (some (.item a) :: R) = some (.item a) :: hard soft R := rfl
+theorem hard_cons_end (R : List (Option (SStep α))) : hard soft (some .end_ :: R) = some .end_ :: hard soft R := rfl
+theorem hard_cons_soft (e : Err) (h : soft e = true) (R : List (Option (SStep α))) :
+    hard soft (some (.err e) :: R) = hard soft R := by simp [hard, h]
+theorem hard_cons_hard (e : Err) (h : soft e = false) (R : List (Option (SStep α))) :
+    hard soft (some (.err e) :: R) = some (.err e) :: hard soft R := by simp [hard, h]
 
 /-- `R` is what a consumer of `(l, t)` may see: the items in order, then the end forever / the
 failure itself (after which nothing is specified). -/
@@ -113,8 +116,8 @@ theorem drive_succ (m : SM σ α) (c : Bool) (f : Nat) (s : σ) :
   rcases m.step s c with ⟨r, s'⟩
   cases r <;> rfl
 
-theorem sended_conforms {m : SM σ α} {s : σ} (h : SEnded m s) (e : Nat) (calls : List (Bool × Nat))
-    (hf : ∀ p ∈ calls, 1 ≤ p.2) : Conforms (hard (snextsF m calls s)) [] (.end_ e) := by
+theorem sended_conforms (hctx : soft .ctx = true) {m : SM σ α} {s : σ} (h : SEnded m s) (e : Nat)
+    (calls : List (Bool × Nat)) (hf : ∀ p ∈ calls, 1 ≤ p.2) : Conforms (hard soft (snextsF m calls s)) [] (.end_ e) := by
   induction calls generalizing s with
   | nil => simp [snextsF, hard, Conforms]
   | cons p calls ih =>
@@ -124,7 +127,7 @@ theorem sended_conforms {m : SM σ α} {s : σ} (h : SEnded m s) (e : Nat) (call
     obtain ⟨g, rfl⟩ : ∃ g, fuel = g + 1 := ⟨fuel - 1, by omega⟩
     obtain ⟨s', hs, he'⟩ := h.live
     have liveCase : ∀ c, m.step s c = m.step s true →
-        Conforms (hard (snextsF m ((c, g + 1) :: calls) s)) [] (.end_ e) := by
+        Conforms (hard soft (snextsF m ((c, g + 1) :: calls) s)) [] (.end_ e) := by
       intro c hk
       have hd : drive m c (g + 1) s = (some .end_, s') := by rw [drive_succ, hk, hs]
       simp only [snextsF, hd, hard_cons_end, Conforms]
@@ -135,16 +138,16 @@ theorem sended_conforms {m : SM σ α} {s : σ} (h : SEnded m s) (e : Nat) (call
       rcases h.ctxOk with hk | hk
       · have hd : drive m false (g + 1) s = (some (.err .ctx), s) := by rw [drive_succ, hk]
         simp only [snextsF, hd]
-        rw [hard_cons_soft _ rfl]
+        rw [hard_cons_soft _ hctx]
         exact ih h hf'
       · exact liveCase false hk
 
 /-- What the consumer sees, with the failed calls that cost nothing erased, is the denoted sequence
 (each call with its own context and any fuel above a bound). -/
-theorem sden_conformsF {m : SM σ α} {cost : σ → Nat} {s : σ} {L : List (α × Nat)} {t : Term}
-    (h : SDen m cost s L t) :
+theorem sden_conformsF (hctx : soft .ctx = true) {m : SM σ α} {cost : σ → Nat} {s : σ}
+    {L : List (α × Nat)} {t : Term} (h : SDen soft m cost s L t) :
     ∃ F, ∀ calls : List (Bool × Nat), (∀ p ∈ calls, F ≤ p.2) →
-      Conforms (hard (snextsF m calls s)) (L.map Prod.fst) t := by
+      Conforms (hard soft (snextsF m calls s)) (L.map Prod.fst) t := by
   induction h with
   | @skip s s' L t hc hs _ ih =>
     obtain ⟨F, hF⟩ := ih
@@ -157,7 +160,7 @@ theorem sden_conformsF {m : SM σ α} {cost : σ → Nat} {s : σ} {L : List (α
       have hf' : ∀ p ∈ calls, F + 1 ≤ p.2 := fun p hp => hf p (by simp [hp])
       obtain ⟨g, rfl⟩ : ∃ g, fuel = g + 1 := ⟨fuel - 1, by omega⟩
       have liveCase : ∀ c, m.step s c = m.step s true →
-          Conforms (hard (snextsF m ((c, g + 1) :: calls) s)) (L.map Prod.fst) t := by
+          Conforms (hard soft (snextsF m ((c, g + 1) :: calls) s)) (L.map Prod.fst) t := by
         intro c hk
         have hd : drive m c (g + 1) s = drive m c g s' := by rw [drive_succ, hk, hs]
         have := hF ((c, g) :: calls) (by
@@ -173,7 +176,7 @@ theorem sden_conformsF {m : SM σ α} {cost : σ → Nat} {s : σ} {L : List (α
         rcases hc with hk | hk
         · have hd : drive m false (g + 1) s = (some (.err .ctx), s) := by rw [drive_succ, hk]
           simp only [snextsF, hd]
-          rw [hard_cons_soft _ rfl]
+          rw [hard_cons_soft _ hctx]
           exact ihc hf'
         · exact liveCase false hk
   | @soft s s' e L t hc hs he _ ih =>
@@ -187,7 +190,7 @@ theorem sden_conformsF {m : SM σ α} {cost : σ → Nat} {s : σ} {L : List (α
       have hf' : ∀ p ∈ calls, F + 1 ≤ p.2 := fun p hp => hf p (by simp [hp])
       obtain ⟨g, rfl⟩ : ∃ g, fuel = g + 1 := ⟨fuel - 1, by omega⟩
       have liveCase : ∀ c, m.step s c = m.step s true →
-          Conforms (hard (snextsF m ((c, g + 1) :: calls) s)) (L.map Prod.fst) t := by
+          Conforms (hard soft (snextsF m ((c, g + 1) :: calls) s)) (L.map Prod.fst) t := by
         intro c hk
         have hd : drive m c (g + 1) s = (some (.err e), s') := by rw [drive_succ, hk, hs]
         simp only [snextsF, hd]
@@ -199,7 +202,7 @@ theorem sden_conformsF {m : SM σ α} {cost : σ → Nat} {s : σ} {L : List (α
         rcases hc with hk | hk
         · have hd : drive m false (g + 1) s = (some (.err .ctx), s) := by rw [drive_succ, hk]
           simp only [snextsF, hd]
-          rw [hard_cons_soft _ rfl]
+          rw [hard_cons_soft _ hctx]
           exact ihc hf'
         · exact liveCase false hk
   | @item s s' a L t hc hs _ ih =>
@@ -213,7 +216,7 @@ theorem sden_conformsF {m : SM σ α} {cost : σ → Nat} {s : σ} {L : List (α
       have hf' : ∀ p ∈ calls, F + 1 ≤ p.2 := fun p hp => hf p (by simp [hp])
       obtain ⟨g, rfl⟩ : ∃ g, fuel = g + 1 := ⟨fuel - 1, by omega⟩
       have liveCase : ∀ c, m.step s c = m.step s true →
-          Conforms (hard (snextsF m ((c, g + 1) :: calls) s)) (((a, cost s') :: L).map Prod.fst) t := by
+          Conforms (hard soft (snextsF m ((c, g + 1) :: calls) s)) (((a, cost s') :: L).map Prod.fst) t := by
         intro c hk
         have hd : drive m c (g + 1) s = (some (.item a), s') := by rw [drive_succ, hk, hs]
         simp only [snextsF, hd, hard_cons_item, List.map_cons, Conforms]
@@ -224,7 +227,7 @@ theorem sden_conformsF {m : SM σ α} {cost : σ → Nat} {s : σ} {L : List (α
         rcases hc with hk | hk
         · have hd : drive m false (g + 1) s = (some (.err .ctx), s) := by rw [drive_succ, hk]
           simp only [snextsF, hd]
-          rw [hard_cons_soft _ rfl]
+          rw [hard_cons_soft _ hctx]
           exact ihc hf'
         · exact liveCase false hk
   | @fail s s' e hc hs he =>
@@ -237,7 +240,7 @@ theorem sden_conformsF {m : SM σ α} {cost : σ → Nat} {s : σ} {L : List (α
       have hf' : ∀ p ∈ calls, 1 ≤ p.2 := fun p hp => hf p (by simp [hp])
       obtain ⟨g, rfl⟩ : ∃ g, fuel = g + 1 := ⟨fuel - 1, by omega⟩
       have liveCase : ∀ c, m.step s c = m.step s true →
-          Conforms (hard (snextsF m ((c, g + 1) :: calls) s)) [] (.fail e) := by
+          Conforms (hard soft (snextsF m ((c, g + 1) :: calls) s)) [] (.fail e) := by
         intro c hk
         have hd : drive m c (g + 1) s = (some (.err e), s') := by rw [drive_succ, hk, hs]
         simp only [snextsF, hd]
@@ -249,7 +252,7 @@ theorem sden_conformsF {m : SM σ α} {cost : σ → Nat} {s : σ} {L : List (α
         rcases hc with hk | hk
         · have hd : drive m false (g + 1) s = (some (.err .ctx), s) := by rw [drive_succ, hk]
           simp only [snextsF, hd]
-          rw [hard_cons_soft _ rfl]
+          rw [hard_cons_soft _ hctx]
           exact ihc hf'
         · exact liveCase false hk
   | @done s s' hc hs he _ =>
@@ -262,25 +265,25 @@ theorem sden_conformsF {m : SM σ α} {cost : σ → Nat} {s : σ} {L : List (α
       have hf' : ∀ p ∈ calls, 1 ≤ p.2 := fun p hp => hf p (by simp [hp])
       obtain ⟨g, rfl⟩ : ∃ g, fuel = g + 1 := ⟨fuel - 1, by omega⟩
       have liveCase : ∀ c, m.step s c = m.step s true →
-          Conforms (hard (snextsF m ((c, g + 1) :: calls) s)) [] (.end_ (cost s')) := by
+          Conforms (hard soft (snextsF m ((c, g + 1) :: calls) s)) [] (.end_ (cost s')) := by
         intro c hk
         have hd : drive m c (g + 1) s = (some .end_, s') := by rw [drive_succ, hk, hs]
         simp only [snextsF, hd, hard_cons_end, List.map_nil, Conforms]
-        exact ⟨trivial, sended_conforms he _ calls hf'⟩
+        exact ⟨trivial, sended_conforms hctx he _ calls hf'⟩
       cases c with
       | true => exact liveCase true rfl
       | false =>
         rcases hc with hk | hk
         · have hd : drive m false (g + 1) s = (some (.err .ctx), s) := by rw [drive_succ, hk]
           simp only [snextsF, hd]
-          rw [hard_cons_soft _ rfl]
+          rw [hard_cons_soft _ hctx]
           exact ihc hf'
         · exact liveCase false hk
 
-theorem sden_conforms {m : SM σ α} {cost : σ → Nat} {s : σ} {L : List (α × Nat)} {t : Term}
-    (h : SDen m cost s L t) :
-    ∃ F, ∀ fuel, F ≤ fuel → ∀ cs, Conforms (hard (snexts m fuel cs s)) (L.map Prod.fst) t := by
-  obtain ⟨F, hF⟩ := sden_conformsF h
+theorem sden_conforms (hctx : soft .ctx = true) {m : SM σ α} {cost : σ → Nat} {s : σ}
+    {L : List (α × Nat)} {t : Term} (h : SDen soft m cost s L t) :
+    ∃ F, ∀ fuel, F ≤ fuel → ∀ cs, Conforms (hard soft (snexts m fuel cs s)) (L.map Prod.fst) t := by
+  obtain ⟨F, hF⟩ := sden_conformsF hctx h
   refine ⟨F, fun fuel hf cs => hF _ ?_⟩
   intro p hp
   simp only [List.mem_map] at hp
